@@ -347,6 +347,9 @@ fn c10() {
     add(json!({"producers": [[["a", 1]]], "main": [["a", 2]], "flush": true, "pb": pb}));
     add(json!({"producers": [[["a", 1]]], "main": [["b", 2]], "flush": true, "pb": pb}));
     add(json!({"producers": [[["a", 1], ["a", 3]]], "main": [["a", 2]], "flush": true, "pb": pb}));
+    // an abandoned flush request (polled once, dropped), then one more entry and an awaited flush
+    add(json!({"producers": [], "main": [["a", 2]], "flush": true, "cancelled_flush": true, "pb": pb}));
+    add(json!({"producers": [[["a", 1]]], "main": [["b", 2]], "flush": false, "cancelled_flush": true, "pb": pb}));
     // overlapping flush requests: another thread's flush is in flight when main flushes
     add(json!({"producers": [], "main": [["a", 2]], "flush": true, "flushers": 1, "pb": pb}));
     add(json!({"producers": [[["a", 1]]], "main": [["a", 2]], "flush": true, "flushers": 1, "pb": pb}));
